@@ -3,9 +3,42 @@ K = 'github.com/ProjectSerenity/firefly/kernel'
 B = 'github.com/ProjectSerenity/firefly/kbuild'
 
 PROP = {'pkg': B,
- 'tests': [{'name': 'TestVerifC20', 'checks_quick': 6000, 'checks_thorough': 240000}],
- 'rule': 'placeholder',
- 'technique': 'placeholder',
- 'level_text': 'placeholder',
- 'level_note': 'placeholder',
- 'assumptions': []}
+ 'tests': [{'name': 'TestVerifC20', 'checks_quick': 8000, 'checks_thorough': 400000}],
+ 'rule': 'rapid generates the description of a Go source tree: 1-6 directories (root included) up to depth 5, 0-4 files '
+         'each (non-test .go files, _test.go files, non-Go files such as .go.bak/.gox/.s, some of them not Go at all), '
+         '0-7 top-level elements per file: plain functions (with/without body) whose doc comment mixes 0-6 lines of '
+         'prose, other //go: directives, exact `//go:redirect-from <sym>` lines (1+ blanks/tabs before, optional '
+         'blanks after the symbol, duplicate symbols allowed) and look-alikes (`// go:redirect-from`, mid-line '
+         'mentions, other case, //go:redirect-to and friends, /* */ blocks); methods; var/const/type/var-group/'
+         'func-literal declarations and free-standing comments that carry the exact directive text in their doc, in a '
+         'group detached by a blank line, inside bodies (also directly above a func literal), trailing a line, directly '
+         'below the previous declaration, above the package clause; elements with or without a blank line between '
+         'them. The tree is written to a fresh temp directory (removed after the case) and the real FindRedirects runs '
+         'with it as working directory. Model by construction: one (symbol, kernel-import-path[/dir].Func) per exact '
+         'directive line in the doc of a plain function of a non-test .go file; compared as a multiset. The build is '
+         'repeated (fresh Context; max(5, min(32, 64/#go files)) builds) and every table must equal the first one '
+         'element by element (position text, source, destination). Every shard first runs the same two oracles on '
+         '$VERIF_REPO/kernel against an independent line-based scanner (case {"kernel":true}). Non-trivial = tree with '
+         '>=2 annotated functions in one file and >=1 look-alike; distinct = different hash of the JSON tree.',
+ 'technique': 'rapid-generated source trees vs. a by-construction model (multiset) + repeated-build sequence equality; '
+              'real kernel tree vs. an independent line scanner',
+ 'level_text': 'Generated-input search: every generated tree is built several times with the real FindRedirects; the '
+               'table must match the annotations the generator put into the tree (and nothing else) and be identical, '
+               'in order, across builds. Exploration, not proof: the space of source trees is infinite, the generator '
+               'aims at the comment positions that go/parser does and does not attach to a function as its doc.',
+ 'level_note': 'The model relies on the generator knowing which comment lines form a function\'s doc comment; this is '
+               'cross-checked against go/parser (FuncDecl.Doc) for every generated file as a harness self-check '
+               '(VERIF-HARNESS, never a violation). Order non-determinism is detected statistically: a reordering that '
+               'shows in 1 of 8 builds is missed by 5 builds of one tree with probability ~0.5, by the whole run '
+               'practically never. CompleteRedirects (writing the table into the ELF image in slice order) is not '
+               'exercised.',
+ 'assumptions': ['the tree is scanned with the kernel root as working directory; the root package is '
+                 'github.com/ProjectSerenity/firefly/kernel and a function in <dir> is named <that>/<dir>.<Func>',
+                 'an annotation is a doc-comment line `//go:redirect-from`, 1+ blanks/tabs, a symbol without blanks, '
+                 'optional trailing blanks; the symbol "as written" excludes the surrounding blanks',
+                 'not generated because the statement does not decide them: annotated methods, the directive trailing '
+                 'the function\'s own line, the directive without a symbol or directly followed by other characters, '
+                 'symbols containing blanks, functions named init/_/main, package main, files and directories the go '
+                 'tool would not build (leading _ or ., testdata, vendor, GOOS/GOARCH suffixes, build constraints), '
+                 'directory names that need escaping in a linker symbol, generic functions, CRLF line ends, symlinks',
+                 'generated files are syntactically valid Go but are not type-checked (FindRedirects only parses)']}
